@@ -6,6 +6,11 @@
 #define CEIL_BLOCKS(n) ((n + LANES - 1) / LANES)
 #define FLOOR_BLOCKS(n) (n / LANES)
 
+// The image buffer comes from realloc(), which only guarantees 16-byte
+// alignment: blocks are accessed with unaligned loads and stores.
+#define LOAD(p) _mm256_loadu_si256(p)
+#define STORE(p, v) _mm256_storeu_si256((p), (v))
+
 static void
 bin2(uint8_t* im_, int w, int h)
 {
@@ -16,21 +21,27 @@ bin2(uint8_t* im_, int w, int h)
         __m256i* const row = im + 2 * y * dy;
         for (int x = 0; x < CEIL_BLOCKS(w); ++x) {
             __m256i* const col = row + x;
-            im[x + y * dy] = _mm256_avg_epu8(col[0], col[dy]);
+            STORE(im + x + y * dy, _mm256_avg_epu8(LOAD(col), LOAD(col + dy)));
         }
     }
 
     const __m256i mask = _mm256_set1_epi16(0x00ff);
     for (int x = 0; x < FLOOR_BLOCKS(w * h / 2); ++x) {
-        const __m256i b = _mm256_srli_epi16(im[x], 8);
-        const __m256i v = _mm256_avg_epu8(im[x], b);
-        im[x] = _mm256_and_si256(v, mask);
+        const __m256i a = LOAD(im + x);
+        const __m256i b = _mm256_srli_epi16(a, 8);
+        const __m256i v = _mm256_avg_epu8(a, b);
+        STORE(im + x, _mm256_and_si256(v, mask));
     }
     for (int x = 0; x < FLOOR_BLOCKS(w * h / 4); ++x) {
-        const __m256i v = _mm256_packus_epi16(im[2 * x], im[2 * x + 1]);
-        im[x] = _mm256_permute4x64_epi64(v, (3 << 6) | (1 << 4) | (2 << 2));
+        const __m256i v =
+          _mm256_packus_epi16(LOAD(im + 2 * x), LOAD(im + 2 * x + 1));
+        STORE(im + x,
+              _mm256_permute4x64_epi64(v, (3 << 6) | (1 << 4) | (2 << 2)));
     }
 }
+
+#undef LOAD
+#undef STORE
 #endif
 
 /*
